@@ -296,7 +296,11 @@ def dump_one(f: TextIO, data: IOData):
         x, y, z = data.atcoords[i] / angstrom
         occ = 1.00 if occupancies is None else occupancies[i]
         b = 0.00 if bfactors is None else bfactors[i]
-        attype = str(n + str(i + 1)) if attypes is None else attypes[i]
+        if attypes is None:
+            # The atom name has at most four characters.
+            attype = f"{n}{i + 1}" if len(f"{n}{i + 1}") <= 4 else n
+        else:
+            attype = attypes[i]
         restype = "XXX" if restypes is None else restypes[i]
         chain = " " if chainids is None else chainids[i]
         out1 = f"{i+1:>5d} {attype:<4s} {restype:3s} {chain:1s}{resnum:>4d}    "
